@@ -13,7 +13,7 @@ EXTRACT = ["C01"]
 BINS = ["c01"]
 NEEDS_CICADA = True
 ALLOWED_AXIOMS = []
-PINNED = ["C01_tokenize", "C01_tokenize_escaped", "C01_plan_quoted", "C01_plan_full", "C01_post_passes", "C01_split", "C01_esc_refuted"]
+PINNED = ["C01_tokenize", "C01_tokenize_escaped", "C01_tokenize_mixed", "C01_plan_mixed_partial", "C01_plan_quoted", "C01_plan_full", "C01_post_passes", "C01_split", "C01_esc_refuted"]
 TRUSTED = [
     "Coq 8.16.1 kernel; vm_compute in witnesses/examples only",
     "hand transcription of parse_line / is_arithmetic (Model/Tokenizer.v), tokens_to_redirections, from_tokens, "
